@@ -196,6 +196,9 @@ func (sm *structMapper) visitField(loc fieldLoc, f reflect.StructField, p fieldP
 		case oldloc.i == -3 && p.tagged && loc.depth() == len(oldloc.path):
 			// A tagged field wins over untagged fields.
 			sm.sp.fields[fi] = loc
+		case oldloc.i == -3:
+			// Several untagged fields on a less (or equally) nested level:
+			// all are ignored, a further or deeper candidate does not win.
 		case oldloc.isValid() && oldloc.depth() < loc.depth():
 			// This is deeper, don't override.
 		case oldloc.isValid() && oldloc.depth() == loc.depth():
